@@ -1,9 +1,15 @@
 #!/bin/bash
-# quick tier of every check for several VERIF_SEED values (false-alarm hunt on the unchanged tree)
+# quick tier of every check for several VERIF_SEED values (false-alarm hunt on the unchanged tree);
+# also prints failures that a run attributed to OTHER properties (on the unchanged tree there must be none)
 cd "$(dirname "$0")"
 for s in "$@"; do
   for c in $(python3 -c "import json; print(' '.join(x['property_id'] for x in json.load(open('MANIFEST.json'))['checks']))"); do
     out=$(./check $c --tier quick --seed $s 2>&1 | grep -E "^(OK|VIOLATION|HARNESS)" | tr '\n' ' ')
-    echo "seed=$s $c: $out" | cut -c1-200
+    other=$(python3 -c "
+import json
+e=json.load(open('evidence/$c.json'))['coverage']
+a=e.get('violations_attributed_to_other_properties'); b=e.get('e2_violations_attributed_to_other_properties')
+print('OTHER', a, b) if (a or b) else print('')")
+    echo "seed=$s $c: $out $other" | cut -c1-260
   done
 done
